@@ -1200,6 +1200,56 @@ theorem invT_step (s : St) (t : Tid) (e : Ev) (s' : St) (hl : InvL s) (h : InvT 
 theorem invT_init (a : Bool) : InvT (init a) := by
   intro m t hx; simp [init, Pc.sawTrue] at hx
 
+/-! ## the flags as functions of the history -/
+
+theorem trigOf_after (h1 h2 : List HEv) (u : Tid) (hno : ∀ v, HEv.clear v ∉ h2) :
+    trigOf (h1 ++ HEv.setTrig u :: h2) = true := by
+  have key : ∀ (l : List HEv), (∀ v, HEv.clear v ∉ l) → l.foldl trigStep true = true := by
+    intro l; induction l with
+    | nil => intro _; rfl
+    | cons e l ih =>
+      intro hl
+      have he : trigStep true e = true := by
+        cases e <;> simp [trigStep]
+        rename_i v; exact absurd (List.mem_cons_self) (hl v)
+      simp only [List.foldl_cons, he]
+      exact ih (fun v hv => hl v (List.mem_cons_of_mem _ hv))
+  simp only [trigOf, List.foldl_append, List.foldl_cons]
+  have : trigStep (List.foldl trigStep false h1) (HEv.setTrig u) = true := by simp [trigStep]
+  rw [this]; exact key h2 hno
+
+theorem actOf_after (h1 h2 : List HEv) (u : Tid) (hno : ∀ v, HEv.setInactive v ∉ h2) :
+    actOf (h1 ++ HEv.setActive u :: h2) = true := by
+  have key : ∀ (l : List HEv), (∀ v, HEv.setInactive v ∉ l) → l.foldl actStep true = true := by
+    intro l; induction l with
+    | nil => intro _; rfl
+    | cons e l ih =>
+      intro hl
+      have he : actStep true e = true := by
+        cases e <;> simp [actStep]
+        rename_i v; exact absurd (List.mem_cons_self) (hl v)
+      simp only [List.foldl_cons, he]
+      exact ih (fun v hv => hl v (List.mem_cons_of_mem _ hv))
+  simp only [actOf, List.foldl_append, List.foldl_cons]
+  have : actStep (List.foldl actStep false h1) (HEv.setActive u) = true := by simp [actStep]
+  rw [this]; exact key h2 hno
+
+theorem actOf_after_reset (h1 h2 : List HEv) (u : Tid) (hno : ∀ v, HEv.setActive v ∉ h2) :
+    actOf (h1 ++ HEv.setInactive u :: h2) = false := by
+  have key : ∀ (l : List HEv), (∀ v, HEv.setActive v ∉ l) → l.foldl actStep false = false := by
+    intro l; induction l with
+    | nil => intro _; rfl
+    | cons e l ih =>
+      intro hl
+      have he : actStep false e = false := by
+        cases e <;> simp [actStep]
+        rename_i v; exact absurd (List.mem_cons_self) (hl v)
+      simp only [List.foldl_cons, he]
+      exact ih (fun v hv => hl v (List.mem_cons_of_mem _ hv))
+  simp only [actOf, List.foldl_append, List.foldl_cons]
+  have : actStep (List.foldl actStep false h1) (HEv.setInactive u) = false := by simp [actStep]
+  rw [this]; exact key h2 hno
+
 /-- the full invariant -/
 structure Inv (s : St) : Prop where
   l : InvL s
